@@ -184,7 +184,7 @@ func (sh shape) structValue(streamNS string) structVal {
 var forms = []string{
 	"Send", "SendElement", "TokenWriter",
 	"Encode(struct)", "Encode(TokenReader)", "Encode(Marshaler)", "Encode(WriterTo)",
-	"EncodeElement(struct)", "EncodeElement(Marshaler)", "EncodeElement(WriterTo)",
+	"EncodeElement(struct)", "EncodeElement(struct+attrs)", "EncodeElement(Marshaler)", "EncodeElement(WriterTo)",
 	"SendIQ", "SendIQElement", "EncodeIQ", "EncodeIQElement",
 	"SendMessage", "SendMessageElement", "EncodeMessage", "EncodeMessageElement",
 	"SendPresence", "SendPresenceElement", "EncodePresence", "EncodePresenceElement",
@@ -239,6 +239,15 @@ func doTransmit(s *xmpp.Session, form string, sh shape, streamNS string) (err er
 		}
 		v := structVal{XMLName: xml.Name{Space: "urn:wrong", Local: "wrong"}, Inner: sh.inner()}
 		return s.EncodeElement(ctx, v, start), true
+	case "EncodeElement(struct+attrs)":
+		// the attributes are fields of the value, the start element only names
+		// the element: as with encoding/xml both end up on the outermost tag
+		if sh.xmlnsAttr {
+			return nil, false
+		}
+		v := sh.structValue(streamNS)
+		v.XMLName = xml.Name{Space: "urn:wrong", Local: "wrong"}
+		return s.EncodeElement(ctx, v, xml.StartElement{Name: start.Name}), true
 	case "EncodeElement(Marshaler)":
 		return s.EncodeElement(ctx, marshalerVal{sh.otherOuter()}, start), true
 	case "EncodeElement(WriterTo)":
@@ -400,7 +409,7 @@ func init() {
 	drv.Register(&drv.Prop{
 		ID:    "C05",
 		Level: "model_checking",
-		Rule: "shapes: 22 transmit entry points / value forms (Send, SendElement, TokenWriter, Encode and EncodeElement with struct / TokenReader / Marshaler / WriterTo values, the Send/Encode IQ, message and presence families with reply types) x element name {message, iq, presence, foo} x namespace {none, the stream's, foreign} x id {absent, empty, set} x from {absent, empty, set} x explicit xmlns attribute x nested stanza-named child x payload {none, small, 5000 bytes} x c2s/s2s: after the call returns nil the wire must hold exactly one more complete top-level element tree-equal to a reference (supplied start outermost, id completed, namespace defaulted, from added on s2s, nothing else altered). " +
+		Rule: "shapes: 23 transmit entry points / value forms (Send, SendElement, TokenWriter, Encode and EncodeElement with struct / TokenReader / Marshaler / WriterTo values, the Send/Encode IQ, message and presence families with reply types) x element name {message, iq, presence, foo} x namespace {none, the stream's, foreign} x id {absent, empty, set} x from {absent, empty, set} x explicit xmlns attribute x nested stanza-named child x payload {none, small, 5000 bytes} x c2s/s2s: after the call returns nil the wire must hold exactly one more complete top-level element tree-equal to a reference (supplied start outermost, id completed, namespace defaulted, from added on s2s, nothing else altered). " +
 			"schedules (part 'concurrent'): 2-3 concurrent senders through different entry points plus a handler reply on the controlled scheduler, every interleaving up to the preemption bound: the peer's byte stream must re-parse into exactly the expected elements, none interleaved. Non-trivial = every distinct case.",
 		Assumptions: []string{"elements in a foreign namespace are only required to arrive whole and unaltered", "generated ids match any non-empty value", "comparison is on parsed trees (namespace declarations are not attributes)"},
 		Parts: func(tier string) []drv.Part {
